@@ -199,9 +199,14 @@ def poly_ref(r, s, msg):
 # ---------------------------------------------------------------------------
 # received-tag alphabet (the C01 alphabet restricted to a bare tag)
 # ---------------------------------------------------------------------------
-def tag_candidates(tag, longer=None, other=None):
+DEEP_TAG_MAX = 16
+
+
+def tag_candidates(tag, longer=None, other=None, deep=False):
     """(class, candidate) pairs, simplest first.  `longer` = a longer tag of which `tag` is a
-    prefix (CMAC with mac_len < block size), `other` = the tag of a different message."""
+    prefix (CMAC with mac_len < block size), `other` = the tag of a different message.
+    deep (tags of at most DEEP_TAG_MAX bytes): additionally every two-bit flip and every
+    substitution of one byte by each of the 255 other values."""
     tag = bytes(tag)
     yield "authentic", tag
     for n in range(len(tag)):
@@ -216,6 +221,17 @@ def tag_candidates(tag, longer=None, other=None):
         b = bytearray(tag)
         b[i >> 3] ^= 0x80 >> (i & 7)
         yield "bitflip", bytes(b)
+    if deep and len(tag) <= DEEP_TAG_MAX:
+        for i in range(8 * len(tag)):
+            for j in range(i + 1, 8 * len(tag)):
+                b = bytearray(tag)
+                b[i >> 3] ^= 0x80 >> (i & 7)
+                b[j >> 3] ^= 0x80 >> (j & 7)
+                yield "bitflip2", bytes(b)
+        for i in range(len(tag)):
+            for v in range(256):
+                if v != tag[i]:
+                    yield "byte-substitution", tag[:i] + bytes([v]) + tag[i + 1:]
     yield "authentic-again", tag
 
 
@@ -291,4 +307,11 @@ def selftest_glue():
     assert len(cl["bitflip"]) == 32 and len(set(cl["bitflip"])) == 32 and b"\x01\x02\x03\x04" not in cl["bitflip"]
     assert cl["truncated"] == [b"", b"\x01", b"\x01\x02", b"\x01\x02\x03"]
     assert cl["extended-next"] == [b"\x01\x02\x03\x04\x05"] and cl["other-message"] == [b"zzzz"]
+    assert "bitflip2" not in cl and "byte-substitution" not in cl
+    cl = {}
+    for c_, t_ in tag_candidates(b"\x01\x02\x03", deep=True):
+        cl.setdefault(c_, set()).add(t_)
+    assert len(cl["bitflip2"]) == 24 * 23 // 2 and len(cl["byte-substitution"]) == 3 * 255
+    assert b"\x01\x02\x03" not in cl["bitflip2"] | cl["byte-substitution"]
+    assert all(len(t_) == 3 for t_ in cl["bitflip2"] | cl["byte-substitution"])
     return True
